@@ -108,6 +108,27 @@ def run(ck):
     ck.rule("R10", "the Python back end's bridge to the VM lays values out as the C primitives do: big endian at the access width, reversed last for little-endian VMs (rules shared with C12-R7)", floor=6)
     from rules.c12 import emulated_byte_order_rules
     emulated_byte_order_rules(ck, "R10")
+    ck.rule("R11", "the instruction-wide attributes (memory read / write / exception summary) are computed from ALL the IR blocks of the instruction on every back end", floor=2)
+    # get_attributes(instr, irblocks, ...) ORs the per-block characteristics into the instruction's summary, which decides the
+    # post-instruction memory stage (breakpoints, self-modifying code, access-log reset): a back end that hands over a sublist
+    # (the block about to run) skips that stage for multi-block instructions whose last block touches no memory
+    n11 = 0
+    for rel11 in ("miasm/jitter/jitcore_python.py", "miasm/jitter/codegen.py", "miasm/jitter/llvmconvert.py"):
+        m11 = ck.repo.mod(rel11)
+        for q11, f11 in sorted(m11.funcs.items()):
+            for c11 in [x for x in walk_body(f11) if isinstance(x, ast.Call) and callee_attr(x) == "get_attributes" and len(x.args) >= 2]:
+                a11 = c11.args[1]
+                n11 += 1
+                whole = isinstance(a11, ast.Name)
+                if whole:
+                    # the name is bound per instruction: a parameter, or the element zipped / iterated with the block's lines
+                    from sa.astutil import Resolver as _R11
+                    d11 = _R11(f11).unique_def(a11.id)
+                    if d11 is not None and isinstance(d11, (ast.List, ast.Tuple, ast.Subscript, ast.ListComp)):
+                        whole = False
+                ck.ob("R11", "%s:get_attributes:all-irblocks" % q11, whole, m11.where(c11),
+                      "the instruction's attributes are computed from `%s`, not from the whole list of its IR blocks" % norm(a11)[:60])
+    ck.ob("R11", "get_attributes-callers-seen", n11 >= 2, "miasm/jitter", "fewer callers of get_attributes than on the pinned tree (%d)" % n11)
     ck.rule("R7", "contradiction lints: a key tested in one table indexes that table; binary calls use distinct operands", floor=2)
     _access_record_rules(ck)
 
